@@ -14,12 +14,13 @@ RULE = (
     "calls: signatures of length 0-3 (exhaustive; random ones up to length 4) over the parameter kinds {QUBIT, "
     "REGISTER, INT, FLOAT, NONE} and argument lists whose entries range over the value classes {NamedQubit, "
     "Register, int, integral float, non-integral float, non-finite float, INT Constant, integral FLOAT Constant, "
-    "non-integral FLOAT Constant, Parameter of each kind, str}, with right and wrong arity: the positional call is "
+    "non-integral FLOAT Constant, Parameter of each kind, str, None, arbitrary Python objects}, with right and wrong arity: the positional call is "
     "accepted exactly when the arity matches and every argument fits its parameter's kind (reference `fits` from "
     "the property text), a rejection is a JaqalError, and the keyword call (keywords in shuffled order) gives an == "
     "statement whose parameters are in declaration order; a wrong or extra keyword and a mixed positional/keyword "
-    "call are rejected with JaqalError.  idle: for random gate sets (with prepare/measure) every "
-    "active gate gets an idle twin with the same parameter list and no used qubits, and inserting idle gates at "
+    "call are rejected with JaqalError.  idle: for random gate sets (with prepare/measure; names drawn from the "
+    "pool and, with probability 1/3 each, extra active gates whose own names look like idle or stretched names: "
+    "I_x, I_I_x, x_stretched) every active gate gets an idle twin with the same parameter list and no used qubits, and inserting idle gates at "
     "random places of an executable program leaves every subcircuit's state vector unchanged.  stretched: for "
     "gate sets of 2-6 gates (different arities; idle gates included) every stretched gate has the parent's "
     "parameters plus one trailing FLOAT `stretch` and, for drawn classical arguments and stretch factors, exactly "
@@ -47,6 +48,8 @@ VCLASSES = [
     "param-FLOAT",
     "param-NONE",
     "str",
+    "none",
+    "object",
 ]
 
 
@@ -102,6 +105,10 @@ def value(vc, variant=0):
         return Parameter("p" + k.lower(), None if k == "NONE" else getattr(ParamType, k))
     if vc == "str":
         return "q"
+    if vc == "none":
+        return None
+    if vc == "object":
+        return [(1, 2), [], {"a": 1}, b"q", 1 + 2j][variant % 5]
     raise ValueError(vc)
 
 
@@ -217,6 +224,15 @@ def idle_case(case):
 
     gate_seed = case["gate_seed"]
     base = gates.make_gates(gate_seed, idle=False)
+    # active gates whose NAMES resemble derived ones are still active gates
+    from jaqalpaq.core import GateDefinition, Parameter, ParamType
+
+    ech = gen.Chooser(gate_seed * 31 + 7)
+    for extra in ("I_1q", "I_I_rot", "I_", "Z_stretched"):
+        if ech.int(0, 2) == 0:
+            kinds = [ech.pick(["q", "f", "i"]) for _ in range(ech.int(0, 3))]
+            m = np.eye(2 ** kinds.count("q"), dtype=complex)
+            base[extra] = GateDefinition(extra, [Parameter(f"a{i}", gates.PTYPE[k]) for i, k in enumerate(kinds)], ideal_unitary=(lambda *a, m=m: m))
     st_, withidle = guard(add_idle_gates, base, what="add_idle_gates")
     if st_ == "err":
         raise Violation("add-idle-gates-raised", str(withidle))
